@@ -106,6 +106,19 @@ const otherEventText = "{\"other\":\"event\",\"n\":1234567}\n"
 
 var console = zerolog.ConsoleWriter{Out: io.Discard, NoColor: true}
 
+// consoleVariants: the options that change which code renders an event (ordering, exclusion, colour,
+// formatters of the program's own, the constructor)
+var consoleVariants = []zerolog.ConsoleWriter{
+	{Out: io.Discard, NoColor: true, FieldsOrder: []string{"zebra", "b", "error", "a", "k"}, FieldsExclude: []string{"x"}},
+	{Out: io.Discard, NoColor: false, PartsOrder: []string{"message", "level", "caller", "time"}, PartsExclude: []string{"caller"}, FieldsOrder: []string{"error"}, TimeFormat: "2006-01-02"},
+	{Out: io.Discard, NoColor: true, FieldsOrder: []string{"a"}, FormatFieldName: func(i interface{}) string { return fmt.Sprintf("%v:", i) }, FormatErrFieldValue: func(i interface{}) string { return fmt.Sprintf("<%v>", i) },
+		FormatPrepare: func(m map[string]interface{}) error { delete(m, "a"); return nil }},
+	zerolog.NewConsoleWriter(func(w *zerolog.ConsoleWriter) {
+		w.Out, w.NoColor = io.Discard, true
+		w.FieldsOrder = []string{"time", "error", "zz"}
+	}),
+}
+
 // journal decodes the binary event and hands it to the journal socket, which does not exist in
 // the sandbox: Write fails after the decoding and field conversion this check is about
 var journal = journald.NewJournalDWriter()
@@ -180,6 +193,11 @@ func checkInput(in []byte, withConsole bool) *failure {
 	if withConsole {
 		if p := call(func() { console.Write(in) }); p != "" {
 			return &failure{"ConsoleWriter.Write", hex.EncodeToString(in), p}
+		}
+		for i, cw := range consoleVariants {
+			if p := call(func() { cw.Write(in) }); p != "" {
+				return &failure{fmt.Sprintf("ConsoleWriter.Write (configuration %d)", i), hex.EncodeToString(in), p}
+			}
 		}
 		if p := call(func() { journal.Write(in) }); p != "" {
 			return &failure{"journald Write", hex.EncodeToString(in), p}
